@@ -185,6 +185,57 @@ fn job(ctx: &Ctx, s: &dyn SuiteOps, kind: Kind, thorough: bool) -> JobOut {
                 test(&mut out, format!("top_bit_twin:{}", f.name), format!("alias:{:?}:{:?}:topbit", f.ty, grp), &b, false);
             }
         }
+        // opaque-ke's own serde impls (key-exchange public and private keys) route through the
+        // same group decoders: an alias accepted there is an alias of the stored state too
+        if let Ok(item) = s.decode(kind, Codec::Native, v) {
+            for codec in [Codec::Bincode, Codec::Json] {
+                let Ok(enc) = s.encode(&item, codec) else { continue };
+                for f in &fl {
+                    if !matches!(f.ty, FieldTy::KePk | FieldTy::KeSk) {
+                        continue;
+                    }
+                    let Some(grp) = grp_of(s, f.ty) else { continue };
+                    let good = &v[f.off..f.off + f.len];
+                    let mut cands: Vec<(String, Vec<u8>)> = vec![];
+                    for val in 0..=255u8 {
+                        for o in [0, f.len - 1] {
+                            if good[o] != val {
+                                let mut b = good.to_vec();
+                                b[o] = val;
+                                cands.push((if o == 0 { format!("lead{val:02x}") } else { "last".into() }, b));
+                            }
+                        }
+                    }
+                    if f.ty == FieldTy::KeSk {
+                        let cat = catalog::load(&ctx.verif_dir, grp);
+                        if let Some(ord) = cat.order_bytes() {
+                            if let Some(n) = cat.add(good, &ord) {
+                                cands.push(("plus_order".into(), n));
+                            }
+                        }
+                    }
+                    for (which, bad) in cands {
+                        let Some(planted) = crate::checks::c11::plant(codec, &enc, good, &bad) else { continue };
+                        out.evals += 1;
+                        if let Ok(it) = s.decode(kind, codec, &planted) {
+                            out.accepted += 1;
+                            let re = s.encode(&it, codec).unwrap_or_default();
+                            if re != planted {
+                                let sig = format!("alias_serde:{:?}:{:?}:{}", f.ty, grp, which);
+                                if !out.found.iter().any(|x| x.signature == sig) {
+                                    out.found.push(Found {
+                                        clause: "non_canonical_accepted".into(),
+                                        detail: format!("{} [{:?} via {:?}, field {}] the serde decoder accepted a key encoding that re-encodes differently ({})", s.name(), kind, codec, f.name, which),
+                                        signature: sig,
+                                        case: Case::Decode { suite: s.name().into(), kind, codec, bytes: Hex(planted), expect: "canonical".into(), note: "serde".into() },
+                                    });
+                                }
+                            }
+                        }
+                    }
+                }
+            }
+        }
         if out.sample.is_none() {
             out.sample = Some(json!({"suite": s.name(), "decoder": format!("{:?}", kind), "valid_len": v.len(), "fields": fl.iter().map(|f| f.name).collect::<Vec<_>>(), "valid": crate::hexs::abbrev(v)}));
         }
@@ -194,7 +245,7 @@ fn job(ctx: &Ctx, s: &dyn SuiteOps, kind: Kind, thorough: bool) -> JobOut {
 
 pub fn run(ctx: &Ctx) -> Report {
     let mut rep = Report::new(
-        "for each of the 20 suites x 11 native decoders, from valid encodings harvested from a seeded honest run: truncation to every length, extension by 1..64 bytes (zero / random / own tail), all 256 values of the first and last byte of every group-element and scalar field, substitutions at every offset of those fields (quick: 12 seeded values per offset; thorough: all 255), 8 seeded substitutions per opaque field, scalar + k*order while it fits, top-bit twins for the 25519 groups. Oracle: decode Ok => re-encode == input (and length == the fixed length). distinct = (suite, decoder, mutation class, accepted?) combinations",
+        "for each of the 20 suites x 11 native decoders, from valid encodings harvested from a seeded honest run: truncation to every length, extension by 1..64 bytes (zero / random / own tail), all 256 values of the first and last byte of every group-element and scalar field, substitutions at every offset of those fields (quick: 12 seeded values per offset; thorough: all 255), 8 seeded substitutions per opaque field, scalar + k*order while it fits, top-bit twins for the 25519 groups; plus, through bincode and JSON, all 256 values of the first and last byte (and +order) of every key-exchange public/private key field, which opaque-ke's own serde impls decode with the same group decoders. Oracle: decode Ok => re-encode == input (and length == the fixed length). distinct = (suite, decoder, mutation class, accepted?) combinations",
     );
     rep.exhaustive = Some(true);
     let suites: Vec<&'static dyn SuiteOps> = SIM_SUITES.to_vec();
@@ -230,6 +281,17 @@ pub fn run(ctx: &Ctx) -> Report {
 }
 
 /// replay of a Decode case with expectation "canonical"
+pub fn replay_decode_serde(suite: &str, kind: Kind, codec: Codec, bytes: &[u8]) -> Option<String> {
+    let s = crate::suite::suite_by_name(suite)?;
+    let it = s.decode(kind, codec, bytes).ok()?;
+    let re = s.encode(&it, codec).ok()?;
+    if re != bytes {
+        Some("the serde decoder accepted a key encoding that re-encodes differently".into())
+    } else {
+        None
+    }
+}
+
 pub fn replay_decode(suite: &str, kind: Kind, bytes: &[u8], note: &str) -> Option<String> {
     let s = crate::suite::suite_by_name(suite)?;
     let total = crate::layout::total_len(kind, &s.lens());
